@@ -39,7 +39,7 @@ type c20Op struct {
 }
 
 type c20Step struct {
-	Op  string  `json:"op"` // put del txn other compact load_ok load_fail watch deliver drain close
+	Op  string  `json:"op"` // put del txn other compact compact_at(val: rev|rev+1|cur) load_ok load_fail watch deliver drain close
 	Key int     `json:"key,omitempty"`
 	Val string  `json:"val,omitempty"`
 	Ops []c20Op `json:"ops,omitempty"`
@@ -171,7 +171,7 @@ func (w *c20Watcher) Watch(ctx context.Context, key string, opts ...clientv3.OpO
 	return out
 }
 func (w *c20Watcher) RequestProgress(ctx context.Context) error { return w.inner.RequestProgress(ctx) }
-func (w *c20Watcher) Close() error                            { return nil }
+func (w *c20Watcher) Close() error                              { return nil }
 
 // ---------- one lane = one embedded etcd ----------
 
@@ -201,6 +201,7 @@ type c20Run struct {
 	fail    string
 	tags    map[string]bool
 	harness string // harness-level problem (timeout...)
+	stuck   bool   // never reached the watching state again
 }
 
 func c20Exec(l *c20Lane, cs c20Case) (res c20Run) {
@@ -387,13 +388,20 @@ func c20Exec(l *c20Lane, cs c20Case) (res c20Run) {
 		record(fmt.Sprintf("EDeliver %d%%nat", len(revs)))
 		return true
 	}
-	toClosed := func() bool {
-		// the router sleeps one second, then calls loadAll
-		if s, ok := waitSig(10 * time.Second); !ok || s != "get" {
-			res.harness = "router did not come back to loadAll after a closed stream: " + s
-			return false
+	// after a closed or cancelled stream the router backs off one second and then calls
+	// loadAll (Get gate, position 3); a router that re-opens the watch without reloading
+	// shows up at the Watch gate instead (position 1)
+	toClosed := func() (int, bool) {
+		s, ok := waitSig(10 * time.Second)
+		switch {
+		case ok && s == "get":
+			return 3, true
+		case ok && s == "watch":
+			res.tags["reconnect-without-reload"] = true
+			return 1, true
 		}
-		return true
+		res.harness = "router did not come back after a closed stream: " + s
+		return 0, false
 	}
 	keyName := func(i int) string { return cs.Keys[((i%len(cs.Keys))+len(cs.Keys))%len(cs.Keys)].Rem }
 
@@ -483,6 +491,36 @@ func c20Exec(l *c20Lane, cs c20Case) (res c20Run) {
 			}
 			atomic.StoreInt64(&l.compact, resp.Header.Revision)
 			record("ECompact")
+		case "compact_at":
+			// compaction at a revision chosen relative to the router: "rev" = the revision its
+			// table reflects, "rev+1" = the first revision its resumed watch asks for, "cur"
+			// = etcd's current revision; only while no stream is open (see "compact")
+			if phase == 2 {
+				return true
+			}
+			_, rel := routesOf()
+			cur, err := l.cli.Get(bg, c20OtherKey)
+			if err != nil {
+				res.harness = err.Error()
+				return false
+			}
+			switch st.Val {
+			case "rev":
+			case "rev+1":
+				rel++
+			default:
+				rel = cur.Header.Revision - base
+			}
+			if rel < 0 || (st.Val != "cur" && !loaded) {
+				return true // unpatched code has no rev field / nothing loaded yet
+			}
+			if _, err := l.cli.Compact(bg, base+rel, clientv3.WithCompactPhysical()); err == nil {
+				if base+rel > atomic.LoadInt64(&l.compact) {
+					atomic.StoreInt64(&l.compact, base+rel)
+				}
+				res.tags["compact-at-"+st.Val] = true
+			}
+			record(fmt.Sprintf("ECompactAt %d%%nat", rel))
 		case "load_ok", "load_fail":
 			if phase != 0 && phase != 3 {
 				return true
@@ -528,10 +566,11 @@ func c20Exec(l *c20Lane, cs c20Case) (res c20Run) {
 				record("EWatchStart")
 			case "cancelled":
 				res.tags["watch-cancelled-by-compaction"] = true
-				if !toClosed() {
+				p, ok := toClosed()
+				if !ok {
 					return false
 				}
-				phase = 3
+				phase = p
 				record("EWatchStart")
 			default:
 				res.harness = "unexpected signal after Watch: " + s
@@ -558,10 +597,11 @@ func c20Exec(l *c20Lane, cs c20Case) (res c20Run) {
 			wt.mu.Unlock()
 			st.cancel()
 			close(st.out)
-			if !toClosed() {
+			p, ok := toClosed()
+			if !ok {
 				return false
 			}
-			phase = 3
+			phase = p
 			res.tags["stream-closed"] = true
 			record("EStreamClosed")
 		}
@@ -573,6 +613,7 @@ func c20Exec(l *c20Lane, cs c20Case) (res c20Run) {
 		}
 	}
 	// quiescence: changes have stopped; bring the router to watching and deliver everything
+	// (bounded: six reconnect rounds, each gated; a router that can never resume is reported)
 	for i := 0; phase != 2 && i < 6; i++ {
 		if phase == 0 || phase == 3 {
 			if !do(c20Step{Op: "load_ok"}) {
@@ -585,11 +626,8 @@ func c20Exec(l *c20Lane, cs c20Case) (res c20Run) {
 			}
 		}
 	}
-	if phase != 2 {
-		res.harness = "router never reached the watching state"
-		return
-	}
-	if !do(c20Step{Op: "drain"}) {
+	stuck := phase != 2
+	if !stuck && !do(c20Step{Op: "drain"}) {
 		return
 	}
 	// final read of etcd
@@ -600,6 +638,12 @@ func c20Exec(l *c20Lane, cs c20Case) (res c20Run) {
 	}
 	for _, kvp := range get.Kvs {
 		res.etcd = append(res.etcd, [2]string{strings.TrimPrefix(string(kvp.Key), prefix), string(kvp.Value)})
+	}
+	if stuck {
+		m, _ := routesOf()
+		res.stuck = true
+		res.fail = fmt.Sprintf("changes stopped, six reconnect rounds later the router is still not watching (every Watch is cancelled: compacted); table %v, etcd %v", m, res.etcd)
+		return
 	}
 	// ---- implementation-side oracle (canonical keys only: the keys brokers write) ----
 	if cs.Canon {
@@ -764,6 +808,41 @@ func c20Gen(r *vRand) c20Case {
 			}
 		}
 	}
+	// the compaction family: stream closed -> lease changes -> compaction relative to the
+	// router's revision (beyond it, exactly at it, at the first revision the resumed watch
+	// asks for, at etcd's current revision) -> reconnect, optionally with a reload that
+	// fails once; repeated cycles.  Each cycle costs the router's one-second back-off(s).
+	if r.Chance(35) {
+		cs.Steps = append(cs.Steps, c20Step{Op: "load_ok"}, c20Step{Op: "watch"}, c20Step{Op: "drain"})
+		for c := r.Range(1, 2); c > 0; c-- {
+			cs.Steps = append(cs.Steps, c20Step{Op: "close"})
+			for k := r.Range(1, 3); k > 0; k-- {
+				cs.Steps = append(cs.Steps, write())
+			}
+			switch r.Intn(5) {
+			case 0:
+				cs.Steps = append(cs.Steps, c20Step{Op: "compact"})
+			case 1:
+				cs.Steps = append(cs.Steps, c20Step{Op: "compact_at", Val: "rev"})
+			case 2:
+				cs.Steps = append(cs.Steps, c20Step{Op: "compact_at", Val: "rev+1"})
+			case 3:
+				cs.Steps = append(cs.Steps, c20Step{Op: "compact_at", Val: "cur"})
+			default:
+				cs.Steps = append(cs.Steps, c20Step{Op: "compact"}, c20Step{Op: "compact"})
+			}
+			if r.Chance(30) {
+				cs.Steps = append(cs.Steps, write())
+			}
+			if r.Chance(40) { // the reload fails once: the watch resumes from the old revision
+				cs.Steps = append(cs.Steps, c20Step{Op: "load_fail"}, c20Step{Op: "watch"})
+			}
+			cs.Steps = append(cs.Steps, c20Step{Op: "load_ok"}, c20Step{Op: "watch"})
+			if r.Chance(50) {
+				cs.Steps = append(cs.Steps, c20Step{Op: "drain"})
+			}
+		}
+	}
 	return cs
 }
 
@@ -779,6 +858,17 @@ func TestVerifC20(t *testing.T) {
 		// resumed revision compacted away: the watch is cancelled and the router reloads
 		{Kind: 1, Canon: true, Keys: []c20Key{{Rem: "g"}}, Steps: []c20Step{{Op: "load_ok"}, {Op: "watch"}, {Op: "close"}, {Op: "put", Key: 0, Val: "1"}, {Op: "compact"}, {Op: "compact"}, {Op: "load_fail"}, {Op: "watch"}}},
 	}
+	corpus = append(corpus,
+		// stream closed -> the lease moves -> etcd compacts past the router's revision -> reconnect:
+		// only the reload gets the router going again (a re-watch from rev+1 is cancelled forever)
+		c20Case{Kind: 0, Canon: true, Keys: []c20Key{{Rem: "orders/3", Topic: "orders", Part: 3}}, Steps: []c20Step{{Op: "put", Key: 0, Val: "1"}, {Op: "load_ok"}, {Op: "watch"}, {Op: "close"}, {Op: "put", Key: 0, Val: "2"}, {Op: "compact"}, {Op: "compact"}}},
+		c20Case{Kind: 1, Canon: true, Keys: []c20Key{{Rem: "g"}, {Rem: "h"}}, Steps: []c20Step{{Op: "put", Key: 0, Val: "1"}, {Op: "load_ok"}, {Op: "watch"}, {Op: "close"}, {Op: "del", Key: 0}, {Op: "put", Key: 1, Val: "2"}, {Op: "compact_at", Val: "cur"}, {Op: "other"}}},
+		// compaction exactly at the router's revision / at the first revision the resumed watch asks for (a delete), reload failing once
+		c20Case{Kind: 1, Canon: true, Keys: []c20Key{{Rem: "g"}}, Steps: []c20Step{{Op: "put", Key: 0, Val: "1"}, {Op: "load_ok"}, {Op: "watch"}, {Op: "close"}, {Op: "put", Key: 0, Val: "2"}, {Op: "compact_at", Val: "rev"}, {Op: "load_fail"}, {Op: "watch"}}},
+		c20Case{Kind: 1, Canon: true, Keys: []c20Key{{Rem: "g"}}, Steps: []c20Step{{Op: "put", Key: 0, Val: "1"}, {Op: "load_ok"}, {Op: "watch"}, {Op: "close"}, {Op: "del", Key: 0}, {Op: "put", Key: 0, Val: "3"}, {Op: "compact_at", Val: "rev+1"}, {Op: "load_fail"}, {Op: "watch"}, {Op: "drain"}}},
+		// two cycles, the first reload fails and its watch is cancelled
+		c20Case{Kind: 0, Canon: true, Keys: []c20Key{{Rem: "a/0", Topic: "a"}, {Rem: "a/1", Topic: "a", Part: 1}}, Steps: []c20Step{{Op: "put", Key: 0, Val: "1"}, {Op: "load_ok"}, {Op: "watch"}, {Op: "close"}, {Op: "put", Key: 1, Val: "2"}, {Op: "compact"}, {Op: "compact"}, {Op: "load_fail"}, {Op: "watch"}, {Op: "load_ok"}, {Op: "watch"}, {Op: "close"}, {Op: "del", Key: 0}, {Op: "compact_at", Val: "cur"}, {Op: "other"}, {Op: "load_ok"}, {Op: "watch"}}},
+	)
 	var cases []c20Case
 	if rc := vReplayCase(); rc != nil {
 		var cs c20Case
@@ -833,7 +923,7 @@ func TestVerifC20(t *testing.T) {
 						c2 := cs
 						c2.Steps = steps
 						r2 := c20Exec(lanes[li], c2)
-						return r2.fail != "" && r2.harness == ""
+						return r2.fail != "" && r2.harness == "" && r2.stuck == run.stuck
 					})
 					r2 := c20Exec(lanes[li], shr)
 					if r2.fail != "" {
@@ -863,10 +953,14 @@ func TestVerifC20(t *testing.T) {
 			rep.Sample(cs)
 		}
 		if o.run.fail != "" {
+			key := "routes-differ-from-etcd-after-quiescence"
+			if o.run.stuck {
+				key = "router-not-watching-after-bounded-reconnects"
+			}
 			if o.shrunk != nil {
-				rep.Fail("converge", "routes-differ-from-etcd-after-quiescence", o.what, *o.shrunk)
+				rep.Fail("converge", key, o.what, *o.shrunk)
 			} else {
-				rep.Fail("converge", "routes-differ-from-etcd-after-quiescence", o.run.fail, cs)
+				rep.Fail("converge", key, o.run.fail, cs)
 			}
 		}
 		coq = append(coq, c20Coq(cs, o.run))
